@@ -53,6 +53,8 @@ struct CatEntry {
   int skip_mode = 0;        // 0: exact (fails past EOF)  1: always fails  2: succeeds past EOF (fseek-like)  3: clamps to EOF
   int null_times = 0;       // first N factory calls for this name return nullptr ("transient open failure")
   int eio_times = -1;       // if >=0: eio_at applies only to the first N sources, later ones are healthy
+  int throw_times = 0;      // first N factory calls for this name exit by exception (user code may throw)
+  int read_throw_times = 0; // first N sources handed out throw from their second Read
   std::string version;      // ZoneInfoSource::Version()
   // Bookkeeping
   int sources_made = 0;
@@ -72,6 +74,7 @@ struct FactoryCall {
   int64_t bytes_served = 0;
   std::string task_op;      // what the invoking task's script said it was doing
   bool used_fallback = false;
+  bool threw = false;       // the invocation (or a Read of the source it returned) exited by exception
 };
 
 struct FactoryState {
